@@ -18,9 +18,13 @@
 (*                         data_to_format=(id,) | "nl" '@m<id>@\n' | "empty" ''        *)
 (*   SetCutoff(c)          Logger.priority_cutoff = c                                  *)
 (*   Cleanup               Logger.cleanup()                                            *)
-(*   Main(b)               a small Model is declared and main(b) is called (b = "none": *)
+(*   Main(b, k)            a small Model is declared and main(b) is called (b = "none": *)
 (*                         main()): construction and main() write to the standard logs *)
-(*                         MainLogs that are registered, main() ends with cleanup()    *)
+(*                         MainLogs that are registered, main() ends with cleanup().   *)
+(*                         k = "fails": the model has an undefined name, main() raises *)
+(*                         and still ends with cleanup() (finally); as found, LogInfo   *)
+(*                         gives up when the log MainGate is not registered, so only   *)
+(*                         the logs MainAlways are written to                          *)
 (*                                                                                    *)
 (* What the code does and the documentation fixes only loosely is modelled as found:   *)
 (* Logger() fetches the handle BEFORE it looks at the priority, so a message that is    *)
@@ -41,6 +45,9 @@ CONSTANTS
     Cutoffs,        \* bounded instance: values SetCutoff is tried with
     DefaultCutoff,  \* 10
     MainLogs,       \* the standard logs construction + main() write to
+    MainGate,       \* "log": a failing main() writes its report only if this log is registered ...
+    MainAlways,     \* ... otherwise only to these ({"timeseries"}, written in the finally clause)
+    MainKinds,      \* bounded instance: subset of {"solves", "fails"}
     MaxHist, MaxWrites, MaxMains
 
 AllLogs == StdLogs \cup OtherLogs
@@ -99,9 +106,10 @@ CleanupOp(s) == [s EXCEPT !.handles = [lg \in AllLogs |-> "none"], !.fileOf = [l
 
 (* declaring a small model and running main(b): every registered log of MainLogs is written to *)
 (* (text not predicted; it carries no message id), then cleanup()                              *)
-MainOp(s, b) ==
+MainWrites(s0, k) == IF k = "fails" /\ s0.handles[MainGate] = "none" THEN MainAlways ELSE MainLogs
+MainOp(s, b, k) ==
     LET s0 == IF b = "none" THEN s ELSE RegisterStandardOp(s, b)
-        used == { lg \in MainLogs : s0.handles[lg] # "none" }
+        used == { lg \in MainWrites(s0, k) : s0.handles[lg] # "none" }
         touched == { s0.fileOf[lg] : lg \in used }
         fresh == { s0.fileOf[lg] : lg \in { l \in used : s0.handles[l] = "registered" } }
         s1 == [s0 EXCEPT !.exists  = [f \in Files |-> IF f \in touched THEN TRUE ELSE s0.exists[f]],
@@ -112,8 +120,8 @@ MainOp(s, b) ==
 
 (* files a Logger() call reaches through a registered log (they get created if they were not open) *)
 WriteReaches(s, lg) == IF s.handles[lg] = "none" THEN {} ELSE {s.fileOf[lg]}
-MainReaches(s, b) == LET s0 == IF b = "none" THEN s ELSE RegisterStandardOp(s, b)
-                     IN { s0.fileOf[lg] : lg \in { l \in MainLogs : s0.handles[l] # "none" } }
+MainReaches(s, b, k) == LET s0 == IF b = "none" THEN s ELSE RegisterStandardOp(s, b)
+                        IN { s0.fileOf[lg] : lg \in { l \in MainWrites(s0, k) : s0.handles[l] # "none" } }
 
 ----------------------------------------------------------------------------
 VARIABLES handles, fileOf, exists, content, text, opaque, cutoff,
@@ -192,15 +200,15 @@ Cleanup ==
     /\ Note("Cleanup", "", "", NoShape, 0)
     /\ UNCHANGED << want, reached >>
 
-Main(b) ==
+Main(b, k) ==
     LET s0 == IF b = "none" THEN St ELSE RegisterStandardOp(St, b)
-        fresh == { s0.fileOf[lg] : lg \in { l \in MainLogs : s0.handles[l] = "registered" } }
+        fresh == { s0.fileOf[lg] : lg \in { l \in MainWrites(s0, k) : s0.handles[l] = "registered" } }
     IN /\ Count("Main") < MaxMains
-       /\ Becomes(MainOp(St, b))
+       /\ Becomes(MainOp(St, b, k))
        /\ want' = [f \in Files |-> IF f \in fresh THEN << >> ELSE want[f]]
-       /\ reached' = reached \cup MainReaches(St, b)
-       /\ last' = [a |-> "Main", lg |-> "", exc |-> "", pre |-> St]
-       /\ Note("Main", "", b, NoShape, 0)
+       /\ reached' = reached \cup MainReaches(St, b, k)
+       /\ last' = [a |-> "Main", lg |-> "", exc |-> IF k = "fails" THEN "raises" ELSE "", pre |-> St]
+       /\ Note("Main", "", b, [NoShape EXCEPT !.kind = k], 0)
 
 Next ==
     \/ \E lg \in RegLogs : Register(lg)
@@ -208,7 +216,7 @@ Next ==
     \/ \E lg \in WriteLogs, sh \in Shapes : Write(lg, sh)
     \/ \E c \in Cutoffs : c # cutoff /\ SetCutoff(c)
     \/ ({lg \in AllLogs : handles[lg] # "none"} # {}) /\ Cleanup
-    \/ \E b \in MainBases : Main(b)
+    \/ \E b \in MainBases, k \in MainKinds : Main(b, k)
 
 Spec == Init /\ [][Next]_vars
 
